@@ -2,6 +2,7 @@
 # run every check of the given tier once (optionally with a seed list); prints one line per run
 TIER=${1:-quick}; shift
 SEEDS=${*:-1}
+mkdir -p out
 for s in $SEEDS; do
   for id in C01 C02 C03 C04 C05 C06 C07 C08 C09 C10 C11 C12 C13 C14 C15 C16 C17 C18 C19 C20; do
     t0=$(date +%s)
